@@ -385,6 +385,17 @@ func (tr *FnTrans) frameChecks() {
 							cur = x.X
 							continue
 						}
+						// v.f where v is a variable of the enclosing function that is never reassigned
+						if fv, ok := x.X.(*ssa.FreeVar); ok && x.Op == token.MUL && capturedByRef(fv) && immutableCapture(fv) {
+							path = fv.Name() + path
+							break
+						}
+						// v.f.g: a pointer field loaded from such a variable's object, when this
+						// function never assigns that field
+						if fa, ok := x.X.(*ssa.FieldAddr); ok && x.Op == token.MUL && !fieldAssignedIn(tr.fn, fa) {
+							cur = x.X
+							continue
+						}
 						okShape = false
 					case *ssa.Alloc:
 						if p := spilledParam(tr.fn, x); p != nil {
@@ -432,6 +443,18 @@ func (tr *FnTrans) frameChecks() {
 		}
 		tr.syntactic("frame:global-invariant", "package variables in ["+src+"] are assigned only by package initialisation", probs)
 	}
+	if tr.c != nil && len(tr.c.Private) > 0 {
+		tr.syntactic("frame:private", "objects of private variables ("+strings.Join(tr.c.Private, ", ")+") are freshly allocated and never handed on", tr.privateViolations())
+	}
+	for _, sf := range tr.stableFlds {
+		var probs []string
+		for _, v := range tr.eng.stableViolations(sf.owner) {
+			if strings.Contains(v, "field "+sf.field+" ") {
+				probs = append(probs, v)
+			}
+		}
+		tr.syntactic("frame:stable-field", fmt.Sprintf("field %s of %s is assigned only by the function that allocates the object", sf.field, sf.owner), probs)
+	}
 	for i, t := range tr.stableTypes {
 		if strings.HasPrefix(tr.stableVals[i].T, "(glob ") {
 			tr.syntactic("frame:stable", "package variable "+tr.c.Stable[i]+" is written only by package initialisation", tr.eng.globalWriters(tr.fn.Pkg, strings.TrimPrefix(strings.Fields(tr.c.Stable[i])[0], "&")))
@@ -449,14 +472,19 @@ func (e *Engine) stableViolations(t types.Type) []string {
 		return v
 	}
 	var out []string
+	fieldName := ""
 	rooted := func(v ssa.Value) (bool, bool) { // (is a field of t, through a local allocation)
 		isField := false
+		fieldName = ""
 		cur := v
 		for d := 0; d < 20; d++ {
 			switch x := cur.(type) {
 			case *ssa.FieldAddr:
 				if pt, ok := x.X.Type().Underlying().(*types.Pointer); ok && types.Identical(pt.Elem(), t) {
 					isField = true
+					if stt, ok := t.Underlying().(*types.Struct); ok && x.Field < stt.NumFields() {
+						fieldName = stt.Field(x.Field).Name()
+					}
 				}
 				cur = x.X
 				continue
@@ -480,7 +508,7 @@ func (e *Engine) stableViolations(t types.Type) []string {
 				}
 				if isF, local := rooted(st.Addr); isF && !local {
 					pos := e.prog.Fset.Position(st.Pos())
-					out = append(out, fmt.Sprintf("%s writes a field of %s at %s:%d", fn.String(), key, pos.Filename, pos.Line))
+					out = append(out, fmt.Sprintf("%s writes field %s of %s at %s:%d", fn.String(), fieldName, key, pos.Filename, pos.Line))
 				}
 			}
 		}
@@ -574,6 +602,14 @@ func escapesRec(al *ssa.Alloc, busy map[*ssa.Alloc]bool) bool {
 						if cx.Call.Value != ssa.Value(x) {
 							return true
 						}
+					case *ssa.Call:
+						if cx.Call.Value == ssa.Value(x) {
+							continue // called on the spot: its effects are those of the call
+						}
+						// handed to a callee that is declared to call it and not to keep it
+						if !invokedOnly(cx.Common(), x) {
+							return true
+						}
 					case *ssa.DebugRef:
 					default:
 						return true
@@ -613,9 +649,51 @@ func closureOnlyReads(mc *ssa.MakeClosure, v ssa.Value) bool {
 				if u.Op != token.MUL {
 					return false
 				}
+			case *ssa.FieldAddr:
+				// reading a field of the captured variable
+				frefs := u.Referrers()
+				if frefs == nil {
+					return false
+				}
+				for _, fr := range *frefs {
+					switch fu := fr.(type) {
+					case *ssa.DebugRef:
+					case *ssa.UnOp:
+						if fu.Op != token.MUL {
+							return false
+						}
+					default:
+						return false
+					}
+				}
 			default:
 				return false
 			}
+		}
+	}
+	return true
+}
+
+// invokedOnly: the function literal is passed to a callee whose (assumed) contract declares that
+// parameter with `invokes`: the callee calls it and does not keep it.
+func invokedOnly(cc *ssa.CallCommon, mc *ssa.MakeClosure) bool {
+	if frameEng == nil {
+		return false
+	}
+	spec := frameEng.lookupSpec(calleeName(cc), cc)
+	if spec == nil || len(spec.Invokes) == 0 {
+		return false
+	}
+	params, _ := sigNames(cc.Signature(), cc.IsInvoke())
+	for i, a := range cc.Args {
+		if ct, ok := a.(*ssa.ChangeType); ok {
+			a = ct.X
+		}
+		if a != ssa.Value(mc) {
+			continue
+		}
+		if i >= len(params) || !contains(spec.Invokes, params[i]) {
+			return false
 		}
 	}
 	return true
@@ -867,4 +945,98 @@ func spilledParamField(fn *ssa.Function, addr ssa.Value) bool {
 		}
 	}
 	return true
+}
+
+// fieldAssignedIn: the function stores to the same field (by struct type and index) somewhere.
+func fieldAssignedIn(fn *ssa.Function, fa *ssa.FieldAddr) bool {
+	for _, b := range fn.Blocks {
+		for _, in := range b.Instrs {
+			st, ok := in.(*ssa.Store)
+			if !ok {
+				continue
+			}
+			if a, ok := st.Addr.(*ssa.FieldAddr); ok && a.Field == fa.Field && types.Identical(a.X.Type(), fa.X.Type()) {
+				return true
+			}
+		}
+	}
+	return false
+}
+
+// privateViolations checks the `private` declarations: the variable does not escape, every value
+// stored in it is nil, a new object or a result some contract declares fresh, and every value loaded
+// from it is used only to read or write fields (never stored, passed or returned).
+func (tr *FnTrans) privateViolations() []string {
+	var out []string
+	fns := []*ssa.Function{tr.fn}
+	fns = append(fns, tr.fn.AnonFuncs...)
+	isPrivVar := func(v ssa.Value) bool {
+		switch x := v.(type) {
+		case *ssa.Alloc:
+			return contains(tr.c.Private, x.Comment)
+		case *ssa.FreeVar:
+			return contains(tr.c.Private, x.Name())
+		}
+		return false
+	}
+	found := false
+	for _, fn := range fns {
+		for _, b := range fn.Blocks {
+			for _, in := range b.Instrs {
+				pos := tr.fn.Prog.Fset.Position(in.Pos())
+				switch x := in.(type) {
+				case *ssa.Alloc:
+					if contains(tr.c.Private, x.Comment) {
+						found = true
+						if escapes(x) {
+							out = append(out, fmt.Sprintf("variable %s escapes (line %d)", x.Comment, pos.Line))
+						}
+					}
+				case *ssa.Store:
+					if !isPrivVar(x.Addr) {
+						continue
+					}
+					okVal := false
+					switch v := x.Val.(type) {
+					case *ssa.Const:
+						okVal = v.IsNil()
+					case *ssa.Alloc:
+						okVal = v.Heap
+					case *ssa.Extract:
+						if call, ok := v.Tuple.(*ssa.Call); ok {
+							if spec := tr.eng.lookupSpec(calleeName(call.Common()), call.Common()); spec != nil {
+								okVal = contains(spec.Fresh, fmt.Sprintf("result%d", v.Index))
+							}
+						}
+					case *ssa.Call:
+						if spec := tr.eng.lookupSpec(calleeName(v.Common()), v.Common()); spec != nil {
+							okVal = contains(spec.Fresh, "result") || contains(spec.Fresh, "result0")
+						}
+					}
+					if !okVal {
+						out = append(out, fmt.Sprintf("value stored in %s at line %d is not known to be freshly allocated", x.Addr.Name(), pos.Line))
+					}
+				case *ssa.UnOp:
+					if x.Op != token.MUL || !isPrivVar(x.X) {
+						continue
+					}
+					if refs := x.Referrers(); refs != nil {
+						for _, r := range *refs {
+							switch u := r.(type) {
+							case *ssa.FieldAddr, *ssa.DebugRef:
+							case *ssa.BinOp:
+								_ = u // comparison with nil
+							default:
+								out = append(out, fmt.Sprintf("pointer loaded from a private variable is used by %T at line %d", r, tr.fn.Prog.Fset.Position(r.Pos()).Line))
+							}
+						}
+					}
+				}
+			}
+		}
+	}
+	if !found {
+		out = append(out, "no such local variable")
+	}
+	return out
 }
